@@ -1237,6 +1237,9 @@ func (fr *Frame) collectObjs() {
 // [rundefers; loads of result cells...; return], so that deferred calls can be executed once on the merged state.
 func (fr *Frame) detectJointExit() {
 	fr.jointExit = nil
+	if fr.top && fr.fc != nil && len(fr.fc.Returns) > 0 {
+		return // `returns` clauses are evaluated per return site, over the variables in scope there
+	}
 	var blocks []*ssa.BasicBlock
 	var sig string
 	hasDefer := false
